@@ -256,3 +256,62 @@ def r5_5(rep):
             bad = narrow_nodes(b, c["args"][0])
             rep.check(not bad, "full-width:" + short, "the returned %s never passes through a narrower type%s" %
                       (ty, (" (found %s: %s)" % (bad[0][1], b.canon(bad[0][0], 3)[:60])) if bad else ""), b.loc(c))
+
+
+class _FilteredReport:
+    """Report proxy for rules shared from another property: instances recorded as known findings of THAT property are its
+    business (they are printed by its own check) and are not re-reported here."""
+
+    def __init__(self, rep, other_prop):
+        import engine
+        self._rep = rep
+        self._skip = {k[2] for k in engine.load_known() if k[0] == other_prop}
+
+    def __getattr__(self, name):
+        return getattr(self._rep, name)
+
+    def bad(self, key, detail, loc=""):
+        if key in self._skip:
+            self._rep.ok(key, "recorded as a known finding of the owning property", loc)
+        else:
+            self._rep.bad(key, detail, loc)
+
+    def check(self, cond, key, detail="", loc=""):
+        if not cond and key in self._skip:
+            self._rep.ok(key, "recorded as a known finding of the owning property", loc)
+            return cond
+        return self._rep.check(cond, key, detail, loc)
+
+
+@RULES.rule("R5.6", "integer-kind tables (signedness, size, Rust type, enum repr) agree with C (shared with C02 R2.1)", floor=200)
+def r5_6(rep):
+    """An enumerator is read as signed or unsigned according to `IntKind::is_signed` of the underlying type: when `U16`
+    (char16_t) falls into a `_ => true` catch-all, `enum Glyph : char16_t { LAST = 0xFFFF }` is emitted as -1 with repr(i16)."""
+    import c02
+    c02.r2_1(_FilteredReport(rep, "C02"))
+
+
+@RULES.rule("R5.7", "macros are evaluated under the same clang arguments as the headers (fallback arguments snapshot taken last)", floor=3)
+def r5_7(rep):
+    """`--clang-macro-fallback` re-evaluates macros in its own translation unit built from `options.fallback_clang_args`, a
+    snapshot of `clang_args`.  If the snapshot is taken before the arguments from BINDGEN_EXTRA_CLANG_ARGS are appended, a macro
+    whose value depends on `-DCFG_MODE=2` from the environment is emitted with the value it has without it."""
+    prog = rep.prog
+    OPT = "options::BindgenOptions"
+    b = rep.need(prog.fn("Builder::generate"), "Builder::generate")
+    snaps = [n for n in b.walk() if n["k"] == "Assign" and strip(n["l"]).get("k") == "Field" and strip(n["l"]).get("adt") == OPT and strip(n["l"])["f"] == "fallback_clang_args"]
+    if not rep.check(len(snaps) == 1, "fallback-snapshot-site", "one assignment of options.fallback_clang_args (found %d)" % len(snaps), b.loc(b.root)):
+        return
+    s = snaps[0]
+    src = b.canon(s["r"], 10)
+    rep.check("BindgenOptions::clang_args" in src, "fallback-snapshot-source", "the snapshot is taken from options.clang_args (%s)" % src[:100], b.loc(s))
+    exts = [c for c in b.calls(lambda n: n["k"] == "MCall" and n["name"] in ("extend", "push", "extend_from_slice", "append", "insert"))
+            if strip(c["recv"]).get("k") == "Field" and strip(c["recv"]).get("adt") == OPT and strip(c["recv"])["f"] == "clang_args"]
+    env_ext = [c for c in exts if "get_extra_clang_args" in b.canon(c["args"][0], 8)]
+    rep.check(len(env_ext) == 1, "env-args-appended", "the arguments from the environment are appended to clang_args once", b.loc(b.root))
+    for c in env_ext:
+        rep.check(c["_i"] < s["_i"] and not b.guards(c), "fallback-snapshot-after-env-args",
+                  "the fallback snapshot is taken after the environment's extra clang arguments were appended", b.loc(s))
+    # arguments that are deliberately NOT part of the snapshot: the `-include <other headers>` added afterwards
+    later = [c for c in exts if c["_i"] > s["_i"]]
+    rep.note("clang_args-extensions-after-snapshot", [b.canon(c["args"][0], 4)[:80] for c in later])
